@@ -16,7 +16,7 @@ from gen import dbgen, headers, collide
 
 OPTSETS = [['-c', '-fnames'], ['-c', '-fnames', '-promiscuous'], ['-c', '-fnames', '-string'], ['-python', '-fnames'],
            ['-c', '-python', '-fnames'], ['-c', '-fnames', '-unique-names', '-string', '-promiscuous'],
-           ['-python-native'], ['-c', '-fptrs', '-fnames']]
+           ['-python-native'], ['-c', '-fptrs', '-fnames'], ['-c', '-fptrs', '-fnames', '-unique-names'], ['-python', '-fptrs', '-fnames']]
 
 
 def shuffle_indices(rng, db):
@@ -97,6 +97,23 @@ def main():
         names = [w['name'] for w in d['wrappers'].values() if w['name']]
         if len(names) != len(set(names)):
             ck.spec_failure('wrapper-names', 'two wrappers share a name', replay)
+        # function-pointer and unique-name tables of the code: slot i-1 must hold the wrapper the database numbers i
+        if '-fptrs' in opts:
+            code = open(ocp).read()
+            mt = re.search(r'_in_fptrs\[(\d+)\] = \{\n(.*?)\n\};', code, re.S)
+            if mt:
+                slots = re.findall(r'\(void \*\)(?:&(\w+)|0),', mt.group(2))
+                byidx = [d['wrappers'][k]['name'] for k in sorted(d['wrappers'])]
+                if int(mt.group(1)) != len(d['wrappers']) or len(slots) != len(byidx) or any(sl and sl != nm for sl, nm in zip(slots, byidx) if nm):
+                    ck.spec_failure('fptrs-table', '_in_fptrs does not list the wrappers in database index order: code %s, database %s' % (slots[:6], byidx[:6]), replay)
+                else:
+                    ck.nontrivial('fptrs%d' % i)
+            mt = re.search(r'_in_unique_names\[(\d+)\] = \{\n(.*?)\n\};', code, re.S)
+            if mt:
+                ents = re.findall(r'\{ "([^"]*)", (-?\d+) \}', mt.group(2))
+                bad = [(u, k) for u, k in ents if int(k) + 1 not in d['wrappers'] or d['wrappers'][int(k) + 1]['unique_name'] != u]
+                if bad or len(ents) != int(mt.group(1)):
+                    ck.spec_failure('unique-names-table', '_in_unique_names has entries that do not match the database: %s' % bad[:4], replay)
         # signatures: every named C wrapper must be defined in the code with the recorded types
         if '-c' in opts and '-fnames' in opts:
             decls = []
